@@ -15,11 +15,13 @@ IMPORTS = 'From XV Require Import Base Wildcard Attrs.'
 TNS, FNS, GNS, UNS = 'urn:t', 'urn:f', 'urn:g', 'urn:u'
 NSCODE = {'': 0, TNS: 5, FNS: 6, GNS: 7, UNS: 8}
 # pool of attribute names: (namespace, local)
-POOL = [('', 'a'), ('', 'b'), (TNS, 'q'), (TNS, 'g1'), (FNS, 'x'), (FNS, 'y'), (UNS, 'z')]
-LOCODE = {'a': 1, 'b': 2, 'q': 3, 'g1': 4, 'x': 5, 'y': 6, 'z': 7}
+POOL = [('', 'a'), ('', 'b'), (TNS, 'q'), (TNS, 'g1'), (FNS, 'x'), (FNS, 'y'), (UNS, 'z'), (TNS, 'gd')]
+LOCODE = {'a': 1, 'b': 2, 'q': 3, 'g1': 4, 'x': 5, 'y': 6, 'z': 7, 'gd': 8}
 PREFIX = {'': '', TNS: 't:', FNS: 'f:', GNS: 'g:', UNS: 'u:'}
 # global attribute declarations: name -> type
-GLOBALS = {(TNS, 'q'): 'xs:integer', (TNS, 'g1'): 'xs:boolean', (FNS, 'x'): 'xs:integer'}
+GLOBALS = {(TNS, 'q'): 'xs:integer', (TNS, 'g1'): 'xs:boolean', (FNS, 'x'): 'xs:integer', (TNS, 'gd'): 'xs:integer'}
+# a global declaration with a default value: a referencing use may override it with its own fixed / default
+GLOBAL_DEFAULT = {(TNS, 'gd'): '2'}
 TYCODE = {'xs:integer': 1, 'xs:boolean': 2, 'xs:string': 3}
 LEX = ['1', '01', '2', 'x', 'true', ' 1 ']
 LEXCODE = {l: i + 1 for i, l in enumerate(LEX)}
@@ -87,13 +89,14 @@ def schema_sources(tmpl):
     direct = [d for d in tmpl['decls'] if not d.get('grouped')]
     ag = ''
     ref = ''
-    if ingroup:
-        ag = '<xs:attributeGroup name="ag">%s</xs:attributeGroup>' % ''.join(attr_xsd(d, tmpl.get('afd')) for d in ingroup)
+    if ingroup or tmpl.get('gwild'):
+        ag = '<xs:attributeGroup name="ag">%s%s</xs:attributeGroup>' % (''.join(attr_xsd(d, tmpl.get('afd')) for d in ingroup),
+                                                                       wild_xsd(tmpl.get('gwild')))
         ref = '<xs:attributeGroup ref="t:ag"/>'
     afd = ' attributeFormDefault="%s"' % tmpl['afd'] if tmpl.get('afd') else ''
     main = ('<xs:schema xmlns:xs="http://www.w3.org/2001/XMLSchema" targetNamespace="%s" xmlns:t="%s" xmlns:f="%s"%s>'
             '<xs:import namespace="%s"/><xs:attribute name="q" type="xs:integer"/>'
-            '<xs:attribute name="g1" type="xs:boolean"/>%s'
+            '<xs:attribute name="g1" type="xs:boolean"/><xs:attribute name="gd" type="xs:integer" default="2"/>%s'
             '<xs:element name="r"><xs:complexType>%s%s%s</xs:complexType></xs:element></xs:schema>'
             % (TNS, TNS, FNS, afd, FNS, ag, ''.join(attr_xsd(d, tmpl.get('afd')) for d in direct), ref,
                wild_xsd(tmpl['wild'])))
@@ -164,12 +167,20 @@ def decl_type(d):
     return GLOBALS[tuple(d['name'])] if d['ref'] else d['ty']
 
 
+def eff(d):
+    """effective value constraint of a use: its own, else the one of the referenced global declaration"""
+    fixed, default = d.get('fixed'), d.get('default')
+    if d['ref'] and fixed is None and default is None and d['use'] != 'prohibited':
+        default = GLOBAL_DEFAULT.get(tuple(d['name']))
+    return fixed, default
+
+
 def coq_decl(d):
     use = {'required': 'Required', 'optional': 'Optional', 'prohibited': 'Prohibited'}[d['use']]
     def lex(x):
         return 'None' if x is None else '(Some %s)' % coq_N(LEXCODE[x])
     return '{| a_name := %s; a_use := %s; a_fixed := %s; a_default := %s; a_ty := %s |}' % (
-        coq_name(d['name']), use, lex(d.get('fixed')), lex(d.get('default')), coq_N(TYCODE[decl_type(d)]))
+        coq_name(d['name']), use, lex(eff(d)[0]), lex(eff(d)[1]), coq_N(TYCODE[decl_type(d)]))
 
 
 def coq_wild(w):
@@ -189,6 +200,16 @@ def coq_wild(w):
     return '(Some ({| sh := %s; wtns := %s |}, %s))' % (sh, coq_N(NSCODE[TNS]), pc.capitalize())
 
 
+def coq_eff_wild(tmpl):
+    w, g = tmpl['wild'], tmpl.get('gwild')
+    if g is None:
+        return coq_wild(w)
+    if w is None:
+        return coq_wild(g)
+    return ('(match %s, %s with Some (a, pc), Some (b, _) => Some (intersection a b, pc) | x, _ => x end)'
+            % (coq_wild(w), coq_wild(g)))
+
+
 ENV = ('{| vtab := %s; globals := %s; known_ns := [%s; %s] |}' % (
     coq_list(['(%s, %s, %s)' % (coq_N(a), coq_N(b), coq_N(c)) for a, b, c in VTAB]),
     coq_list(['{| a_name := %s; a_use := Optional; a_fixed := None; a_default := None; a_ty := %s |}'
@@ -202,7 +223,7 @@ KIND = {1: 'missing', 2: 'prohibited', 3: 'type', 4: 'fixed', 5: 'notallowed', 6
 
 
 def model_terms(case):
-    g = '{| decls := %s; wild := %s |}' % (coq_list([coq_decl(d) for d in case['tmpl']['decls']]), coq_wild(case['tmpl']['wild']))
+    g = '{| decls := %s; wild := %s |}' % (coq_list([coq_decl(d) for d in case['tmpl']['decls']]), coq_eff_wild(case['tmpl']))
     terms = []
     for inst in case['instances']:
         attrs = coq_list(['(%s, %s)' % (coq_name(n), coq_N(LEXCODE[v])) for n, v in inst['attrs']])
@@ -227,10 +248,13 @@ def spec_valid(tmpl, attrs):
         return True
 
     def wild_ok(n, v):
-        if tmpl['wild'] is None:
+        # the complete wildcard is the intersection of the local one and the one of the referenced attribute group,
+        # with the processContents of the local wildcard (of the group's when there is no local one)
+        ws = [w for w in (tmpl['wild'], tmpl.get('gwild')) if w is not None]
+        if not ws:
             return False
-        c, pc = tmpl['wild']
-        if not wild_allows(c, n[0]):
+        pc = ws[0][1]
+        if not all(wild_allows(c, n[0]) for c, _pc in ws):
             return False
         if pc == 'skip':
             return True
@@ -243,7 +267,7 @@ def spec_valid(tmpl, attrs):
     for n, v in present.items():
         d = decls.get(n)
         if d is not None and not (d['use'] == 'prohibited' and d.get('fixed') is None):
-            if not decl_ok(decl_type(d), d.get('fixed'), v):
+            if not decl_ok(decl_type(d), eff(d)[0], v):
                 return False
         elif not wild_ok(n, v):
             return False
@@ -257,7 +281,7 @@ def spec_filled(tmpl, inst):
         n = tuple(d['name'])
         if n in present:
             continue
-        if d.get('fixed') is not None or (d.get('default') is not None and inst['use_defaults']) or inst['fill_missing']:
+        if eff(d)[0] is not None or (eff(d)[1] is not None and inst['use_defaults']) or inst['fill_missing']:
             out.append(n)
     return out
 
@@ -321,14 +345,15 @@ def evaluate(ctx, cases):
 
 def rand_tmpl(rng, version):
     decls = []
-    names = rng.sample([('', 'a'), ('', 'b'), (TNS, 'q'), (FNS, 'x'), (TNS, 'g1')], rng.randint(0, 3))
+    names = rng.sample([('', 'a'), ('', 'b'), (TNS, 'q'), (FNS, 'x'), (TNS, 'g1'), (TNS, 'gd'), (TNS, 'gd')], rng.randint(0, 3))
+    names = list(dict.fromkeys(names))
     afd = rng.choice([None, None, 'qualified', 'unqualified'])
     for n in names:
         ref = n in GLOBALS and rng.random() < 0.8
         d = {'name': list(n), 'ref': ref, 'use': rng.choice(['required', 'optional', 'optional', 'prohibited']),
              'ty': rng.choice(['xs:integer', 'xs:boolean', 'xs:string']), 'grouped': rng.random() < 0.3,
              'explicit_form': rng.random() < 0.3}
-        if n[0] == FNS:
+        if n[0] == FNS or n == (TNS, 'gd'):
             d['ref'] = True
         if d['use'] != 'prohibited':
             r = rng.random()
@@ -342,7 +367,7 @@ def rand_tmpl(rng, version):
             d['grouped'] = False     # a prohibited use inside a named attribute group is dropped by XSD
         decls.append(d)
     pool = WILDS + (WILDS11 if version == '1.1' else [])
-    return {'decls': decls, 'wild': rng.choice(pool), 'afd': afd}
+    return {'decls': decls, 'wild': rng.choice(pool), 'afd': afd, 'gwild': rng.choice(pool) if rng.random() < 0.3 else None}
 
 
 def rand_instance(rng, tmpl):
